@@ -71,6 +71,30 @@ def run(check, repo: Repo) -> None:
     ok = unparse(bdef.args[0]) == "num_bf" and is_const(kwarg(bdef, "shuffle"), False) and kwarg(bdef, "val_ratio") is None
     check.decide(ok, "C04-R1", "reconstruct: the batcher partitions all selected bright-field pixels (no shuffle, no validation split)", unparse(bdef), mod.line(bdef),
                  fail_detail=f"`{unparse(bdef)}`")
+    # no code path is selected by the NUMBER or SIZE of the batches (defaulting `if max_batch_size is None` aside): a fast path for "everything fits
+    # in one batch" computes something the batched path must reproduce exactly, step for step
+    bname = loops[0].iter.id
+    bsz = {a for a in func_params(rec) if "batch" in a}
+    sized = set(bsz) | {bname}
+    for st_ in walk_no_nested_defs(rec):  # locals derived from the batch size / the batcher (num_batches = len(batcher), …)
+        if isinstance(st_, ast.Assign) and isinstance(st_.targets[0], ast.Name) and st_.targets[0].id not in sized:
+            v_ = st_.value
+            if any(isinstance(x, ast.Call) and call_name(x) == "len" and x.args and unparse(x.args[0]) == bname for x in ast.walk(v_)):
+                sized.add(st_.targets[0].id)
+    dep_tests = []
+    for n_ in walk_no_nested_defs(rec):
+        if isinstance(n_, (ast.If, ast.IfExp, ast.While)):
+            t_ = n_.test
+            nm_ = names_in(t_) & sized
+            if not nm_:
+                continue
+            is_default = isinstance(t_, ast.Compare) and len(t_.ops) == 1 and isinstance(t_.ops[0], (ast.Is, ast.IsNot)) and is_const(t_.comparators[0], None)
+            if not is_default:
+                dep_tests.append(n_)
+    check.decide(not dep_tests, "C04-R1", "reconstruct: no branch depends on the number or size of the batches", f"batch-dependent names {sorted(sized)}",
+                 mod.line(dep_tests[0]) if dep_tests else mod.line(rec),
+                 fail_detail=f"`{unparse(dep_tests[0].test)[:60]}` selects a code path by the batch count/size: the two paths must agree step for step (filters, normalisation, inverse "
+                             f"transform) for the result to be independent of the batch size" if dep_tests else "")
     bidx = loops[0].target.id
     regions = [("reconstruct[pass 1]", loops[0].body), ("reconstruct[pass 2]", loops[1].body), ("_return_kernel_contributions", ker.body)]
     n_red = 0
